@@ -353,7 +353,8 @@ theorem compileDistribute_eq (cfg : Cfg) (S D : Labware) (a : DistArgs) :
       | some _ =>
         if cfg.maxVolume < a.vol.q then [.fail .invalidOp]
         else exceptMicros (a.dstWells.flattenF.mapM fun w => cfg.dev.pos D.geom w) fun ps =>
-          distTail cfg S D a (ps.mergeSort (· ≤ ·)) := rfl
+          if ¬ a.dstWells.flattenF.Nodup then [.fail .valueErr]
+          else distTail cfg S D a (ps.mergeSort (· ≤ ·)) := rfl
 
 /-- The exclusion list `distribute` builds lies inside the destination range. -/
 theorem excluded_in_range (sorted : List Nat) (dstStart dstEnd : Nat) :
@@ -463,6 +464,10 @@ theorem compileDistribute_erase (T : List String) (c : Cfg) (S D : Labware)
         simp [posOf, hF, cF]
       rw [hE, hF]
       simp only [exceptMicros]
+      by_cases hnd : a.dstWells.flattenF.Nodup
+      swap
+      · rw [if_pos hnd, if_pos hnd]
+      rw [if_neg (not_not.2 hnd), if_neg (not_not.2 hnd)]
       apply distTail_erase T c S D a
       · simp [List.length_mergeSort]
       · by_cases hc : T.contains D.name = true
